@@ -574,7 +574,9 @@ def cases(tier, seed):
         for variant in ('prefix', 'digest'):
             cs.append(('partial', {'front': front, 'variant': variant}, {'weight': 3}))
     for front in ('v2', 'v1'):
-        for name in ('/p/x', '/p', '/a', '/a/b/c', '/zz'):
+        # incl. the pending name / the handler prefix followed by an implicit digest (a different, longer name)
+        for name in ('/p/x', '/p', '/a', '/a/b/c', '/zz', '/a/b/sha256digest=' + '5a' * 32,
+                     '/p/sha256digest=' + 'a5' * 32):
             cs.append(('stray_nack', {'front': front, 'name': name}, {'weight': 3}))
     for front in ('v2', 'v1'):
         for n in (1, 2, 3):
